@@ -179,7 +179,7 @@ class StrSchema(Schema[StrProps]):
 
         if (self.props.pattern is not Nil) or (self.props.alphabet is not Nil) or \
            (self.props.len is not Nil) or (self.props.min_len is not Nil) or \
-           (self.props.len is not Nil) or (self.props.substr is not Nil):
+           (self.props.max_len is not Nil) or (self.props.substr is not Nil):
             raise make_already_declared_error(self)
 
         try:
